@@ -21,5 +21,33 @@ RUNS = {
 WALL_CAP = {'quick': 600, 'thorough': 3000}
 
 
+class _Engine:
+    """An engine module plus the one knob every engine shares: the floating-point error environment of the run.
+
+    The harness silences numpy's floating-point warnings (env.boot) to keep its own logs readable; a user script runs with numpy's
+    defaults (division by zero / invalid value emit RuntimeWarning through the warnings machinery). Code that reacts to those warnings
+    would be dead under the harness's setting, so a third of the scenarios run under the defaults ('fperr': 'warn'). The knob is part
+    of the scenario (replay files without it mean 'ignore').
+    """
+
+    def __init__(self, mod):
+        self._m = mod
+
+    def __getattr__(self, name):
+        return getattr(self._m, name)
+
+    def generate(self, prop, seed, tier):
+        from sim import rng
+        scn = self._m.generate(prop, seed, tier)
+        if isinstance(scn, dict) and 'fperr' not in scn:
+            scn['fperr'] = 'warn' if rng.stream(seed, 'fperr').random() < 0.35 else 'ignore'
+        return scn
+
+    def execute(self, scn):
+        from sim import env
+        with env.fp_env(scn.get('fperr', 'ignore')):
+            return self._m.execute(scn)
+
+
 def engine_for(prop):
-    return importlib.import_module('sim.engines.' + ENGINE_OF[prop])
+    return _Engine(importlib.import_module('sim.engines.' + ENGINE_OF[prop]))
